@@ -44,7 +44,22 @@ SPEC = {
 REVERSALS = ("i[::-1]", "(i[1], i[0])", "tuple(reversed(i))", "tuple(i[::-1])", "[i[1], i[0]]", "list(reversed(i))")
 
 
+MOLV = ["molecules"]
+
+
+def _find_molv(ctx: Ctx):
+    """Name of the local holding the ordered pair [fixed, mobile] in Alignment.align_molecules."""
+    f = ctx.func("Alignment.align_molecules")
+    for st in walk_no_nested(f.node):
+        if isinstance(st, ast.Assign) and isinstance(st.targets[0], ast.Name) and isinstance(st.value, (ast.List, ast.Tuple)) \
+                and sorted(norm(e) for e in st.value.elts) == ["self.end", "self.start"]:
+            MOLV[0] = st.targets[0].id
+            return
+    MOLV[0] = "molecules"
+
+
 def run(ctx: Ctx):
+    _find_molv(ctx)
     r10_1(ctx)
     r10_2(ctx)
     r10_3(ctx)
@@ -83,14 +98,14 @@ def r10_1(ctx: Ctx, rule="R10.1"):
     # --- the role branch
     order_if = None
     for n in walk_no_nested(f.node):
-        if isinstance(n, ast.If) and any(isinstance(s, ast.Assign) and norm(s.targets[0]) == "molecules" for s in n.body):
+        if isinstance(n, ast.If) and any(isinstance(s, ast.Assign) and norm(s.targets[0]) == MOLV[0] for s in n.body):
             order_if = n
     if order_if is None:
         raise AnalysisError("R10.1: role-assignment branch (molecules = [...]) not found in align_molecules")
 
     def mol_list(stmts):
         for s in stmts:
-            if isinstance(s, ast.Assign) and norm(s.targets[0]) == "molecules" and isinstance(s.value, (ast.List, ast.Tuple)):
+            if isinstance(s, ast.Assign) and norm(s.targets[0]) == MOLV[0] and isinstance(s.value, (ast.List, ast.Tuple)):
                 return [norm(e) for e in s.value.elts]
         return None
 
@@ -145,7 +160,7 @@ def r10_1(ctx: Ctx, rule="R10.1"):
         if call_name(c) == rh.name:
             b = bind_args(c, rh)
             pm_, pr_ = [p for p in rh.params][:2]
-            ok = norm(b.get(pm_)) == "molecules[0]" and norm(b.get(pr_)) == p_restr
+            ok = norm(b.get(pm_)) == (MOLV[0] + "[0]") and norm(b.get(pr_)) == p_restr
             n += 1
             ctx.ob(rule, f, c, ok, "the hydrogen filter is applied to the fixed molecule (the one component 0 refers to)",
                    node=c)
@@ -166,14 +181,14 @@ def r10_1(ctx: Ctx, rule="R10.1"):
                     tg = s.targets[0]
                     names = [norm(e) for e in tg.elts] if isinstance(tg, ast.Tuple) else [norm(tg)]
                     if a.id in names and not (isinstance(s.value, ast.Call) and call_name(s.value) == disp.name):
-                        srcs |= {norm(x) for x in ast.walk(s.value) if isinstance(x, ast.Subscript) and norm(x.value) == "molecules"}
+                        srcs |= {norm(x) for x in ast.walk(s.value) if isinstance(x, ast.Subscript) and norm(x.value) == MOLV[0]}
         src[pname] = sorted(srcs)
-    okb = src.get(dp[0]) == ["molecules[0]"] and src.get(dp[1]) == ["molecules[1]"] and norm(b.get("restriction")) == p_restr
+    okb = src.get(dp[0]) == [(MOLV[0] + "[0]")] and src.get(dp[1]) == [(MOLV[0] + "[1]")] and norm(b.get("restriction")) == p_restr
     n += 1
     ctx.ob(rule, f, opt[0], okb, "the optimiser gets (fixed positions, mobile positions, ..., pairs): %s" % src, node=opt[0])
     # bond table and centre belong to the mobile molecule
     okm = True
-    for pname, want in (("mol2_bonds_info", "molecules[1].bonds_distance"), ("mol2_com", "molecules[1].geometric_center")):
+    for pname, want in (("mol2_bonds_info", (MOLV[0] + "[1].bonds_distance")), ("mol2_com", (MOLV[0] + "[1].geometric_center"))):
         a = b.get(pname)
         v = _resolve_local(f.node, a) if a is not None else None
         if v is None or norm(v) != want:
@@ -544,10 +559,18 @@ def r10_6(ctx: Ctx, rule="R10.6"):
     ctx.floor(rule, total, 8, "re-keying paths")
     # index validation: component 0 indexes the start molecule, component 1 the end molecule
     vi = ctx.func("Manager._validate_index")
-    txt = ast.unparse(vi.node)
-    okv = "mol_start[tup[0]]" in txt and "mol_end[tup[1]]" in txt
-    lens = [n_ for n_ in walk_no_nested(vi.node) if isinstance(n_, ast.If) and "len(tup) != 2" in norm(n_.test) and branch_raises(n_.body)
-            and not isinstance(n_.test, ast.UnaryOp)]
+    from ..pat import find as pfind, has as phas
+    name_p = vi.params[-1]
+    st_ = pfind(vi.node, "V_s = self.molecule_correspondence[%s].start" % name_p)
+    en_ = pfind(vi.node, "V_e = self.molecule_correspondence[%s].end" % name_p)
+    lp_ = [n_ for n_ in walk_no_nested(vi.node) if isinstance(n_, ast.For)]
+    okv = False
+    lens = []
+    if st_ and en_ and lp_:
+        tv = norm(lp_[0].target)
+        okv = phas(lp_[0], "%s[%s[0]]" % (st_[0][1]["V_s"], tv)) and phas(lp_[0], "%s[%s[1]]" % (en_[0][1]["V_e"], tv))
+        lens = [n_ for n_ in walk_no_nested(vi.node) if isinstance(n_, ast.If) and "len(%s) != 2" % tv in norm(n_.test) and branch_raises(n_.body)
+                and not isinstance(n_.test, ast.UnaryOp)]
     ctx.ob(rule, vi, "index validation", okv and bool(lens),
            "each pair must have two components; the first is checked against the start molecule, the second against the end molecule",
            node=vi.node)
